@@ -124,3 +124,90 @@ func c13Twice(c *vrep.Ctx) {
 		}
 	})
 }
+
+func init() { vRegistry["c13_longglue"] = c13LongGlue }
+
+// c13LongGlue: long known values made of words with letters of two and three bytes, behind
+// 0..5 ASCII bytes so that such a letter straddles every byte offset class (in particular the
+// powers of two 256, 512, 1024, 4096), occurring once in the unknown text: aligned, glued to a
+// letter in front, behind, or both. The copy must be reported exactly.
+func c13LongGlue(c *vrep.Ctx) {
+	if !instrumented() {
+		panic("c13 needs the v1 instrumentation profile (library goroutines must be modelled threads)")
+	}
+	sizes := []int{200, 300, 560, 1100, 4200}
+	glue := []struct{ name, pre, post string }{{"aligned", " ", " "}, {"glued in front", "q", " "}, {"glued behind", " ", "q"}, {"glued on both sides", "q", "q"}, {"at the very start and end", "", ""}}
+	ts := []float64{0.5, 0.8, 1}
+	c.R.Rule = fmt.Sprintf("known values of about %v bytes made of words with 2- and 3-byte letters behind 0..5 ASCII bytes (a multi-byte letter straddles every offset class) x one copy in the unknown text %d ways (aligned / glued) x thresholds %v: MultipleMatch reports the copy with Confidence 1.0 and its exact Offset/Extent, NearestMatch(value) = (value, 1.0); non-trivial = all cases", sizes, len(glue), ts)
+	body := func(r *vx.Run) {
+		n := sizes[r.Choose(len(sizes), "size")]
+		pad := r.Choose(6, "pad")
+		g := glue[r.Choose(len(glue), "glue")]
+		th := ts[r.Choose(len(ts), "threshold")]
+		if r.Scout() {
+			return
+		}
+		var sb strings.Builder
+		sb.WriteString(strings.Repeat("x", pad))
+		for i := 0; sb.Len() < n; i++ {
+			if sb.Len() > 0 {
+				sb.WriteByte(' ')
+			}
+			sb.WriteString([]string{"é世é", "世界", "éé", "lé世"}[i%4] + string(rune('a'+i%26)))
+		}
+		val := sb.String()
+		cl := New(th)
+		cl.AddValue("K1", val)
+		cl.AddValue("other", "completely unrelated words here")
+		unknown := "lead words" + g.pre + val + g.post + "tail words"
+		if g.pre == "" {
+			unknown = val
+		}
+		at := strings.Index(unknown, val)
+		id := fmt.Sprintf("value of %d bytes (pad %d), %s, T=%v", len(val), pad, g.name, th)
+		var ms Matches
+		var near *Match
+		p, d := underSched(func() {
+			ms = cl.MultipleMatch(unknown)
+			near = cl.NearestMatch(val)
+		})
+		msg := ""
+		switch {
+		case p != "":
+			msg = "panic: " + p
+		case d != "":
+			msg = d
+		default:
+			found := false
+			for _, m := range ms {
+				if m.Name == "K1" && m.Confidence == 1.0 && m.Offset == at && m.Extent == len(val) {
+					found = true
+				}
+			}
+			if !found {
+				var got []string
+				for _, m := range ms {
+					got = append(got, fmt.Sprintf("%s conf=%v off=%d ext=%d", m.Name, m.Confidence, m.Offset, m.Extent))
+				}
+				msg = fmt.Sprintf("MultipleMatch did not report the copy at Offset %d Extent %d with Confidence 1.0; got %v", at, len(val), got)
+			} else if near == nil || near.Name != "K1" || near.Confidence != 1.0 {
+				msg = fmt.Sprintf("NearestMatch(value) = %+v, want K1 with Confidence 1.0", near)
+			} else {
+				msg = checkMatches(ms, unknown, th)
+			}
+		}
+		r.Note = map[string]interface{}{"id": id, "msg": msg}
+	}
+	c.Run(vSplitExplorer(c, 0, 2), body, func(r *vx.Run) {
+		id := r.Note["id"].(string)
+		c.R.Nontrivial++
+		if c.R.Nontrivial%50 == 1 {
+			c.Sample(id)
+		}
+		if m := r.Note["msg"].(string); m != "" {
+			c.Violate("c13_longglue:"+strings.ReplaceAll(id, " ", "_"), id+": "+m, r, m)
+		} else {
+			c.Outcome("found")
+		}
+	})
+}
